@@ -32,6 +32,9 @@ func idxWitness(src string, pick func(*ast.Program) ast.Node) func() (string, er
 			}
 		}()
 		n := pick(p)
+		if isNil(n) {
+			return "(no initializer node)", nil
+		}
 		return fmt.Sprintf("span %d-%d", n.Idx0(), n.Idx1()), nil
 	}
 }
